@@ -43,6 +43,7 @@ class Ctx:
         self.rule_floor: Dict[str, int] = {}
         self.cur_rule = ""
         self._shape = 0  # > 0 while a shape rule is running (see shape_rule below)
+        self._tolerance = 0  # clause-level gating tolerates a small edit of the skeleton (check_shape / violated_shape)
 
     # -- recording
     def _add(self, status, f: Optional[Func], node, construct: str, detail: str, rule: Optional[str] = None):
@@ -50,7 +51,7 @@ class Ctx:
         fn = f.qualname if f is not None else "<package>"
         if f is not None:
             self.functions_consulted.add(f.qualname)
-        if status == VIOLATED and self._shape and f is not None and not os.environ.get("VK_NO_GATING") and _restructured(self.prog, f):
+        if status == VIOLATED and self._shape and f is not None and not os.environ.get("VK_NO_GATING") and _restructured(self.prog, f, self._tolerance):
             status = UNDECIDED
             detail = (f"{f.short} has been restructured (its statement skeleton differs from the one this shape rule was written for); "
                       f"the rule cannot decide it. Was: {detail}")[:600]
@@ -81,17 +82,21 @@ class Ctx:
         if cond:
             return self.ok(f, node, construct, ok_detail, rule)
         self._shape += 1
+        self._tolerance = CLAUSE_TOLERANCE
         try:
             return self.violated(f, node, construct, bad_detail or ok_detail, rule)
         finally:
             self._shape -= 1
+            self._tolerance = 0
 
     def violated_shape(self, f, node, construct, detail, rule=None):
         self._shape += 1
+        self._tolerance = CLAUSE_TOLERANCE
         try:
             return self.violated(f, node, construct, detail, rule)
         finally:
             self._shape -= 1
+            self._tolerance = 0
 
     def floor(self, rule: str, n: int):
         self.rule_floor[rule] = n
@@ -104,10 +109,13 @@ class Ctx:
 
 
 _SKELETONS: Optional[Dict[str, Dict[str, str]]] = None
+CLAUSE_TOLERANCE = 4   # skeleton tokens
 
 
-def _restructured(prog: Program, f: Func) -> bool:
-    """Does f's statement skeleton differ from the recorded one (or is f not a recorded function at all)?"""
+def _restructured(prog: Program, f: Func, tolerance: int = 0) -> bool:
+    """Does f's statement skeleton differ from the recorded one (or is f not a recorded function at all)?  With a tolerance,
+    a difference of at most that many skeleton tokens (a statement dropped or wrapped: the typical small edit) does not
+    count as a restructuring."""
     global _SKELETONS
     from . import skeleton
     if _SKELETONS is None:
@@ -120,7 +128,17 @@ def _restructured(prog: Program, f: Func) -> bool:
     want = rec.get(q)
     if want is None:
         return "<locals>" not in q  # an unrecorded (new) function; nested functions are not recorded
-    return skeleton.digest(f.node) != want
+    have = skeleton.skeleton(f.node)
+    if have == want or skeleton.digest(f.node) == want:
+        return False
+    if tolerance and len(want) != 16:
+        import difflib
+        import re as _re
+        a, b = _re.findall(r"[A-Za-z_:]+|[\[\]]", want), _re.findall(r"[A-Za-z_:]+|[\[\]]", have)
+        sm = difflib.SequenceMatcher(None, a, b, autojunk=False)
+        dist = sum(max(i2 - i1, j2 - j1) for tag, i1, i2, j1, j2 in sm.get_opcodes() if tag != "equal")
+        return dist > tolerance
+    return True
 
 
 def shape_rule(fn):
